@@ -508,7 +508,24 @@ def _render_fn(g, args, rws, subs, hsubs, sections):
                 raise
             inserts.append((e, '\n' + txt) if kind == 'after' else (s, txt))
         elif kind == 'atend':
-            inserts.append((body.rstrip().rfind('}'), '\n' + txt))
+            # before the tail expression if the body ends with one, else before the final `}`
+            btoks = lex(body)
+            depth = 0
+            last_semi = None
+            for t in btoks:
+                if t[0] != 'punct':
+                    continue
+                if t[1] in '([{':
+                    depth += 1
+                elif t[1] in ')]}':
+                    depth -= 1
+                elif t[1] == ';' and depth == 1:
+                    last_semi = t[3]
+            end = body.rstrip().rfind('}')
+            if last_semi is not None and body[last_semi:end].strip():
+                inserts.append((last_semi, '\n' + txt))
+            else:
+                inserts.append((end, '\n' + txt))
     for off, txt in sorted(inserts, key=lambda x: -x[0]):
         body = body[:off] + txt + body[off:]
     contract = ''
